@@ -44,4 +44,38 @@ def effective (ag : Against) (active stock : S) (configured : Option S) (fuzzing
   let t3 : S := { t2 with phases := t2.phases.filter (· ≠ .explain) }
   if fuzzing then t3 else { t3 with phases := t3.phases.filter fun p => p ≠ .reuse ∧ p ≠ .generate }
 
+/-! ## `BaseSchema.configure`: only what a call names is touched -/
+
+/-- the six settings of a loaded schema, as opaque values (`none`: Python `None`); the rate limiter is the limiter built
+    from the given rate string -/
+structure SchemaCfg where
+  baseUrl : Option Nat
+  location : Option Nat
+  rate : Option Nat
+  generation : Option Nat
+  output : Option Nat
+  app : Option Nat
+  deriving DecidableEq, Repr
+
+/-- one `configure(...)` call: per keyword `none` = not given (`NOT_SET`), `some v` = given (`v = none`: Python `None`) -/
+structure ConfigureCall where
+  baseUrl : Option (Option Nat) := none
+  location : Option (Option Nat) := none
+  rate : Option (Option Nat) := none
+  generation : Option (Option Nat) := none
+  output : Option (Option Nat) := none
+  app : Option (Option Nat) := none
+  deriving DecidableEq, Repr
+
+def configure (s : SchemaCfg) (c : ConfigureCall) : SchemaCfg :=
+  { baseUrl := c.baseUrl.getD s.baseUrl, location := c.location.getD s.location, rate := c.rate.getD s.rate,
+    generation := c.generation.getD s.generation, output := c.output.getD s.output, app := c.app.getD s.app }
+
+/-- the last value a history of calls gives one keyword, if any call names it -/
+def lastGiven (f : ConfigureCall → Option (Option Nat)) : List ConfigureCall → Option (Option Nat)
+  | [] => none
+  | c :: rest => match lastGiven f rest with
+    | some v => some v
+    | none => f c
+
 end SV.Model.C12Settings
